@@ -16,14 +16,14 @@ RULE = ('generated multi-package projects (depth<=3, one or two roots, analysed 
         'through module aliases and classes, Documentable.resolveName is compared with the object CPython binds, joined '
         'through the unique definition names. Non-trivial project: has at least one aliased or relative import.')
 ASSUME = ['CPython is the reference for what a name denotes', 'None is allowed except for names imported directly from the defining module or reached through a module alias']
-DECIDING = {'unbound_name_queries': 300, 'reversed_root_orders': 20, 'star_import_names': 100, 'names_resolved': 5000, 'must_resolve_checked': 800, 'dotted_chains': 1500, 'class_scope_queries': 1000, 'alias_queries': 100, 'relative_imports': 100}
+DECIDING = {'directed_queries': 100, 'unbound_name_queries': 300, 'reversed_root_orders': 20, 'star_import_names': 100, 'names_resolved': 5000, 'must_resolve_checked': 800, 'dotted_chains': 1500, 'class_scope_queries': 1000, 'alias_queries': 100, 'relative_imports': 100}
 CPU_S = 900
 PER = 10
 
 
 def cases(tier: str, seed: int) -> List[Dict[str, Any]]:
     n = 300 if tier == 'quick' else 6000
-    return [{'seed': seed, 'k': k, 'n': PER} for k in range(0, n, PER)]
+    return [{'seed': seed, 'k': k, 'n': PER} for k in range(0, n, PER)] + [{'part': 'D', 'name': name} for name in DIRECTED]
 
 
 def worker_init() -> None:
@@ -114,8 +114,109 @@ def _collect_binds(items: List[project.Item], out: List[project.Item]) -> None:
             _collect_binds(it.members, out)
 
 
+# ---- directed projects (hand-written shapes the generator does not produce), judged without a spec: every name the interpreter
+# binds to a class, function or module -- and every dotted chain through module-valued names -- must not resolve to another object
+DIRECTED: Dict[str, Dict[str, str]] = {
+    'local-package-named-like-a-root': {
+        'core/__init__.py': '', 'core/helpers.py': 'def top(): pass\nclass Shared: pass\n', 'core/only_top.py': 'def only(): pass\n',
+        'app/__init__.py': '', 'app/core/__init__.py': 'from . import helpers\n', 'app/core/helpers.py': 'def inner(): pass\nclass Shared: pass\n',
+        'app/main.py': 'from . import core\nfrom .core import helpers as H\nimport core as topcore\nimport core.helpers\nclass K(core.helpers.Shared):\n    from . import core as c2\n    x = 1\ndef f(a: core.helpers.Shared): pass\n',
+        'app/other.py': 'import app.core.helpers\nimport core.only_top\nfrom app import core as appcore\nclass L(appcore.helpers.Shared): pass\n'},
+    'multi-name-from-package': {
+        'kit/__init__.py': 'class Crate: pass\ndef build(): pass\n', 'kit/parts.py': 'class Part: pass\n', 'kit/paint.py': 'def mix(): pass\n', 'paint.py': 'def mix(): pass\n',
+        'user.py': 'from kit import parts, paint, Crate\nfrom kit import build, parts as P2, Crate as C2\nclass U(Crate, parts.Part):\n    from kit import paint, build\n',
+        'kit/inner.py': 'from . import parts, paint\nimport paint as top_paint\nfrom . import paint as p3, parts as p4\n'},
+    'same-leaf-names': {
+        'pa/__init__.py': '', 'pa/util.py': 'class Tool: pass\n', 'pb/__init__.py': '', 'pb/util.py': 'class Tool: pass\n',
+        'pa/use.py': 'from . import util\nfrom pb import util as butil\nimport pb.util\nclass A(util.Tool): pass\nclass B(butil.Tool): pass\nclass C(pb.util.Tool): pass\n',
+        'pb/use.py': 'from .util import Tool\nfrom pa.util import Tool as ATool\nimport pa.util as util\nclass D(Tool): pass\nclass E(util.Tool): pass\n'},
+}
+
+
+def _judge_directed(res: core.Res, label: str, dump: Dict[str, Any], system: Any, sources: Dict[str, str]) -> None:
+    from pydoctor import model
+    w = {'project': label, 'sources': sources}
+    for full, rt in dump['modules'].items():
+        mod = system.allobjects.get(full)
+        if not isinstance(mod, model.Module):
+            res.v('C04:directed:module-missing', f'{label}: {full} is not documented', **w)
+            continue
+
+        def check(ctx: Any, ctxname: str, name: str, info: Dict[str, Any], must: bool) -> None:
+            exp = _expected(info, name, {}, {})
+            if exp is None:
+                return
+            res.c('names_resolved')
+            res.c('directed_queries')
+            try:
+                got = ctx.resolveName(name)
+            except Exception as e:  # noqa: BLE001
+                res.v(f'C04:resolve-raises:{type(e).__name__}', f'{label}: {ctxname}.resolveName({name!r}) raised {e!r}', **w)
+                return
+            if got is not None and got.fullName() != exp:
+                res.v('C04:wrong-object:' + ('dotted' if '.' in name else 'plain'), f'{label}: in {ctxname}, {name!r} resolves to {got.fullName()}, Python binds it to {exp}', name=name, **w)
+            elif got is None and must:
+                res.c('must_resolve_checked')
+                res.v('C04:must-resolve:' + ('module-alias' if '.' in name else 'direct-import'), f'{label}: in {ctxname}, {name!r} does not resolve; Python binds it to {exp}', name=name, **w)
+
+        def walk(ctx: Any, ctxname: str, ns: Dict[str, Any], depth: int) -> None:
+            for n, info in ns.items():
+                if n.startswith('__'):
+                    continue
+                # every binding of these projects is an import from (or of) the defining module, or a definition: it must resolve
+                check(ctx, ctxname, n, info, True)
+                if info.get('kind') == 'module':
+                    target = dump['modules'].get(info['modname'])
+                    for k2, i2 in (target or {'ns': {}})['ns'].items():
+                        if k2.startswith('__'):
+                            continue
+                        check(ctx, ctxname, f'{n}.{k2}', i2, i2.get('kind') != 'module' and _expected(i2, k2, {}, {}) == f"{info['modname']}.{k2}")
+                        if i2.get('kind') == 'module':
+                            t2 = dump['modules'].get(i2['modname'])
+                            for k3, i3 in (t2 or {'ns': {}})['ns'].items():
+                                if not k3.startswith('__'):
+                                    check(ctx, ctxname, f'{n}.{k2}.{k3}', i3, False)
+                if info.get('kind') == 'class' and 'ns' in info and depth < 2:
+                    c = ctx.contents.get(n)
+                    if isinstance(c, model.Class):
+                        walk(c, f'{ctxname}.{n}', info['ns'], depth + 1)
+        walk(mod, full, rt['ns'], 0)
+
+
+def _run_directed(case: Dict[str, Any], res: core.Res) -> None:
+    import shutil
+    import tempfile
+    from pathlib import Path
+    name = case['name']
+    srcs = DIRECTED[name]
+    base = Path(tempfile.mkdtemp(prefix='vf04d-'))
+    try:
+        for rel, text in srcs.items():
+            pth = base / rel
+            pth.parent.mkdir(parents=True, exist_ok=True)
+            pth.write_text(text)
+        dump = projrun.cpython_dump([str(base)]).get(str(base))
+        if not dump or 'error' in dump:
+            res.c('generator_discards')
+            res.setadd('directed_discards', f'{name}: {(dump or {}).get("error")}')
+            return
+        roots = sorted(p for p in base.iterdir() if (p.is_dir() and (p / '__init__.py').exists()) or p.suffix == '.py')
+        for order in (roots, list(reversed(roots))):
+            system = projrun.build_system(order)
+            _judge_directed(res, f'directed:{name}', dump, system, srcs)
+            res.c('directed_projects')
+        res.c('evaluations')
+        res.distinct(f'directed:{name}')
+    finally:
+        shutil.rmtree(base, ignore_errors=True)
+    res.sample({'directed': name})
+
+
 def run_case(case: Dict[str, Any]) -> core.Res:
     res = core.Res()
+    if case.get('part') == 'D':
+        _run_directed(case, res)
+        return res
     specs = [project.generate(core.rng('C04', case['seed'], case['k'] + j), project.Features.resolution()) for j in range(case['n'])]
     with projrun.TmpProjects(specs, seed=('C04', case['seed'], case['k'])) as tp:
         dumps = projrun.cpython_dump([str(d) for d in tp.dirs])
